@@ -2,12 +2,117 @@ package main
 
 import (
 	"fmt"
+	"io"
+	"os"
 
-	"github.com/cossacklabs/acra/acrablock"
-	_ "github.com/anishathalye/porcupine"
+	"github.com/cossacklabs/acra/keystore"
+	"github.com/sirupsen/logrus"
+
+	"verif/harness/internal/rig/fakepg"
+	"verif/harness/internal/rig/ksrig"
+	"verif/harness/internal/rig/proxyrig"
 )
 
+const schema = `
+schemas:
+  - table: t
+    columns: [id, plain, data, srch, num, msk, tok, tokb]
+    encrypted:
+      - column: data
+        crypto_envelope: acrablock
+      - column: srch
+        searchable: true
+      - column: num
+        data_type: int32
+        crypto_envelope: acrablock
+      - column: tok
+        token_type: int32
+        consistent_tokenization: true
+      - column: tokb
+        token_type: bytes
+        consistent_tokenization: false
+      - column: msk
+        crypto_envelope: acrablock
+        masking: "xxxx"
+        plaintext_length: 3
+        plaintext_side: left
+`
+
 func main() {
-	b, err := acrablock.CreateAcraBlock([]byte("hello"), []byte("0123456789abcdef0123456789abcdef"), nil)
-	fmt.Println(len(b), err)
+	if os.Getenv("VERIF_LOGS") == "" {
+		logrus.SetOutput(io.Discard)
+	} else {
+		logrus.SetLevel(logrus.DebugLevel)
+	}
+	dir := ksrig.ScratchDir("probe")
+	ks, err := ksrig.V1(dir, ksrig.RandBytes(32), keystore.InfiniteCacheSize)
+	if err != nil {
+		panic(err)
+	}
+	id := []byte("client_one")
+	ksrig.GenClient(ks, id)
+	db := fakepg.NewDB()
+	db.CreateTable("t", []fakepg.Column{{"id", fakepg.Int4}, {"plain", fakepg.Text}, {"data", fakepg.Bytea}, {"srch", fakepg.Bytea}, {"num", fakepg.Bytea}, {"msk", fakepg.Bytea}, {"tok", fakepg.Int4}, {"tokb", fakepg.Bytea}})
+	srv, err := fakepg.NewServer(db)
+	if err != nil {
+		panic(err)
+	}
+	a, err := proxyrig.Start(proxyrig.Opts{KS: ks, ClientID: id, DBPort: srv.Port(), SchemaYAML: schema})
+	if err != nil {
+		panic(err)
+	}
+	c, _, err := proxyrig.DialPG(a.Port)
+	if err != nil {
+		panic(err)
+	}
+	show := func(msgs []proxyrig.BackendMsg, err error) {
+		for _, m := range msgs {
+			fmt.Printf("   <- %s %q\n", m.Type, m.Raw)
+		}
+		if err != nil {
+			fmt.Println("   err:", err)
+		}
+	}
+	for _, q := range os.Args[1:] {
+		n := srv.LogLen()
+		fmt.Println("Q:", q)
+		show(c.Simple(q))
+		for _, r := range srv.Log()[n:] {
+			fmt.Printf("   DB got %s: %.300s\n", r.Type, r.SQL)
+		}
+	}
+	fmt.Println("-- extended")
+	pr := func(msgs []proxyrig.BackendMsg, err error) {
+		if rd := proxyrig.RowDesc(msgs); rd != nil {
+			for _, f := range rd.Fields {
+				fmt.Printf("   field %s oid=%d fmt=%d\n", f.Name, f.DataTypeOID, f.Format)
+			}
+		}
+		for _, r := range proxyrig.Rows(msgs) {
+			fmt.Printf("   row %q\n", r)
+		}
+		if e := proxyrig.ErrorOf(msgs); e != nil || err != nil {
+			fmt.Println("   error:", e, err)
+		}
+	}
+	pr(c.Simple("insert into t (id, tok) values (1, 1483857175)"))
+	pr(c.Simple("select id, tok from t"))
+	pr(c.Extended("", "select id, tok from t", nil, nil, nil, []int16{1}, 0))
+	pr(c.Extended("", "insert into t (id, tok) values (2, 1483857176) returning tok, id", nil, nil, nil, []int16{1}, 0))
+	pr(c.Extended("", "insert into t (num, tok, id) values (5, 1483857177, 3) returning num, tok", nil, nil, nil, []int16{1}, 0))
+	pr(c.Simple("insert into t (num, tok, id) values (5, 1483857178, 4) returning num, tok"))
+	pr(c.Simple("select num, tok from t"))
+	pr(c.Simple("select tok from t"))
+	for _, r := range db.Snapshot("t") {
+		fmt.Printf("%v %v\n", r[0], r[6])
+	}
+	for _, r := range srv.Log() {
+		if r.SQL != "" {
+			q := r.SQL; if len(q) > 260 { q = q[:60] + " ... " + q[len(q)-120:] }; fmt.Printf("FWD %s: %s\n", r.Type, q)
+		}
+	}
+	fmt.Println("unsupported:", srv.Unsupported())
+	c.Close()
+	a.Stop()
+	os.RemoveAll(dir)
 }
